@@ -220,6 +220,18 @@ fn conversion(op: &[i128]) -> (Ints, Ints) {
             pairs.into_iter().filter(|_| true).collect()
         }
     };
+    // the structure a conversion builds is audited like every other list (C03): a well-formed chain between
+    // the sentinels, walked both ways, that agrees with the index (one entry per node, keyed by the node's own key)
+    if !well_formed(&c) {
+        return (vec![-6], {
+            let mut rec = vec![142, src];
+            for (k, v) in order {
+                rec.push(k as i128);
+                rec.push(v as i128);
+            }
+            rec
+        });
+    }
     let mut out = vec![c.cap() as i128, c.len() as i128];
     for (k, v) in c.iter() {
         out.push(*k as i128);
@@ -231,6 +243,28 @@ fn conversion(op: &[i128]) -> (Ints, Ints) {
         rec.push(v as i128);
     }
     (out, rec)
+}
+
+fn well_formed<E, S>(c: &caches::RawLRU<u64, u64, E, S>) -> bool {
+    let a = c.verif_audit();
+    let mut ok = a.walks_terminated && a.sentinels_closed && a.head != a.tail && a.head != 0 && a.tail != 0;
+    let fwd: Vec<usize> = a.fwd.iter().map(|x| x.0).collect();
+    let mut bwd = a.bwd.clone();
+    bwd.reverse();
+    ok &= fwd == bwd && a.len == fwd.len() && a.index.len() == a.len;
+    let mut nodes = fwd.clone();
+    nodes.sort_unstable();
+    nodes.dedup();
+    ok &= nodes.len() == fwd.len() && !fwd.contains(&a.head) && !fwd.contains(&a.tail);
+    // every index entry: the KeyRef points at the key field of the node it maps to, which is linked
+    for (kref, node) in &a.index {
+        ok &= a.fwd.iter().any(|x| x.0 == *node && x.1 == *kref);
+    }
+    // keys pairwise distinct
+    let mut keys: Vec<u64> = a.fwd.iter().map(|x| *x.2).collect();
+    keys.sort_unstable();
+    keys.dedup();
+    ok && keys.len() == a.fwd.len()
 }
 
 fn twoq_out<RH: std::hash::BuildHasher, FH: std::hash::BuildHasher, GH: std::hash::BuildHasher>(
